@@ -499,6 +499,11 @@ static int nfocus;
 void fmc_focus(void* p, unsigned long n) {
   if (nfocus < 24) { focus_r[nfocus].lo = (uintptr_t)p; focus_r[nfocus].hi = (uintptr_t)p + n; nfocus++; }
 }
+// harness set-up that must not be interleaved with anything (placing fibers on the run queues of
+// kernel threads that have not started yet): while on, the running thread is never switched out
+static int noswitch;
+void fmc_atomic(int on) { noswitch = on; }
+int fmc_in_atomic(void) { return noswitch; }
 static inline int in_focus(void* a, int sz) {
   uintptr_t x = (uintptr_t)a;
   for (int i = 0; i < nfocus; i++)
@@ -542,6 +547,7 @@ static void sched_point(void* addr, int sz, int w, int always, void* pc, int flu
   // operation that is about to force a delayed store out of this thread's buffer (the last moment
   // at which the others can still run without seeing it)
   if (SH->focus && nfocus && !observes_env && !(addr && in_focus(addr, sz)) && !(fmc_tso && flush && t->sb.n)) in_S = 0;
+  if (noswitch) in_S = 0;
   // a buffered store may be committed early at any later callback of its owner; it is
   // committed at the latest when the owner is about to execute a flushing operation,
   // i.e. AFTER the scheduling decision below (others may run while it is still buffered)
@@ -550,6 +556,7 @@ static void sched_point(void* addr, int sz, int w, int always, void* pc, int flu
   }
   if (addr) touch(t, addr);
   int nop_hit = ++t->nop > fmc_L0;
+  if (noswitch) { nop_hit = 0; t->nop = 0; t->run = 0; }
   if (nop_hit && t->newaddr) {  // still reaching new memory: not a spin, restart the window
     t->newaddr = 0;
     t->nop = 0;
